@@ -148,6 +148,21 @@ def guard(v):
     return v
 
 
+def ev_all(es, env):
+    """every operand is evaluated (in some stage each error-free sub-expression IS computed, whatever fails to
+    its left), then the leftmost error wins"""
+    vals, first = [], None
+    for x in es:
+        try:
+            vals.append(ev(x, env))
+        except EvalErr as err:
+            vals.append(None)
+            first = first or err
+    if first is not None:
+        raise first
+    return vals
+
+
 def ev(e, env):
     """unbounded-integer evaluation used to steer generation (sizes, which cases raise)"""
     k = e[0]
@@ -161,9 +176,10 @@ def ev(e, env):
         a = ev(e[2], env)
         return a.bit_length() if e[1] == '#' else ~a
     if k == 'cond':
-        c, a, b = ev(e[1], env), ev(e[2], env), ev(e[3], env)
+        c, a, b = ev_all(e[1:], env)
         return a if c else b
-    o, a, b = e[1], ev(e[2], env), ev(e[3], env)
+    o = e[1]
+    a, b = ev_all(e[2:], env)
     if o == '+':
         return guard(a + b)
     if o == '-':
@@ -497,9 +513,9 @@ def gen_program_case(ctx, rp):
 
     depth = rng.choice([1, 2, 2, 3, 3, 4, 5])
     tree = gen_tree(rng, depth, leaf)
-    if rng.random() < 0.25:                              # observe the high bits of a wide value
-        sh = rng.choice([0, 8, 32, 64, 100])
-        tree = ('bin', '&', ('bin', '>>', tree, ('num', sh)), ('num', (1 << rng.choice([8, 16, 32, 64])) - 1))
+    if rng.random() < 0.45:            # a window of w bits of a wide / negative value (words outside [0,2^w) are refused)
+        sh = rng.choice([0, 0, 8, 32, 64, 100])
+        tree = ('bin', '&', ('bin', '>>', tree, ('num', sh)), ('num', (1 << rng.choice([w, w, max(1, w - 1), 4])) - 1))
     toks = to_tokens(rng, tree, rng.choice([0.0, 0.2, 0.5, 0.9]))
     if shape == 'const' and rng.random() < 0.05:
         toks = toks + [('op', '+'), ('id', 'La')]         # a label in a constant definition: syntax error
@@ -532,8 +548,8 @@ def gen_program_case(ctx, rp):
 
     SEEN['bits'] = 0
     labels, outcomes = outcomes_for(n_rep)
-    if n_rep > 1 and any(o[0] != 'val' for o in outcomes):
-        n_rep = 1                                        # an error stops the whole assembly: keep the single i = 0
+    if n_rep > 1 and any(o[0] != 'val' or not (0 <= o[1] < (1 << w)) for o in outcomes):
+        n_rep = 1              # an error / out-of-range word stops the whole assembly: keep the single i = 0
         labels, outcomes = outcomes_for(1)
     return build_program(ctx, rp, w, shape, n_rep, filler, labels, consts, params, toks, ast_, outcomes, far_m)
 
@@ -550,8 +566,7 @@ def arg_tokens(a):
 def build_program(ctx, rp, w, shape, n_rep, filler, labels, consts, params, toks, ast_, outcomes, far_m):
     rng = ctx.rng
     dw = 2 * w
-    in_range = all(o[0] != 'val' or 0 <= o[1] < (1 << w) for o in outcomes)
-    is_flip = rng.random() < (0.35 if in_range else 0.04)
+    is_flip = rng.random() < 0.4
     notations = []
     etxt = render(rng, toks, notations)
     lines = []
@@ -689,16 +704,19 @@ def run_precedence(ctx, rp):
                         terms.append(f'({ctoks(toks)}, Some ({cmexpr(tr)}))')
                         meta.append((kind, toks, pos, tr))
                 else:
-                    terms.append(f'({ctoks(toks)}, None)')
+                    terms.append(f'({ctoks(toks)}, @None expr)')
                     meta.append((kind, toks, 'line', r1.get('error')))
     for (kind, toks), r in zip(predicted_bad, res[len(chunks):]):
         if 'trees' in r and len(r['trees']) == 1:
             terms.append(f'({ctoks(toks)}, Some ({cmexpr(r["trees"][0][1])}))')
             meta.append((kind, toks, 'jump', r['trees'][0][1]))
         else:
-            terms.append(f'({ctoks(toks)}, None)')
+            terms.append(f'({ctoks(toks)}, @None expr)')
             meta.append((kind, toks, 'line', r.get('error')))
-    oks = fw.coq_eval_shards(ctx, 'c12_prec', HEADER, terms, 'check_parse_case', shard=600)
+    oks = fw.coq_eval_shards(ctx, 'c12_prec', HEADER, terms, 'check_parse_case', shard=600, timeout=300)
+    if any(ok is None for ok in oks):
+        ctx.broken_tie('coq evaluation of the precedence cases did not finish',
+                       f'{sum(ok is None for ok in oks)} of {len(oks)} cases were not evaluated')
     for (kind, toks, pos, tr), ok in zip(meta, oks):
         ctx.count(('prec', plain_text(toks), pos), nontrivial=True)
         ctx.hist('precedence_cases', kind)
@@ -717,14 +735,35 @@ def run_precedence(ctx, rp):
     return len(terms)
 
 
+CRASH = {'error': {'class': 'WorkerCrash', 'catchall': False, 'cause': None, 'msg': 'the process running the assembler died',
+                   'file_left': False}}
+
+
 def run_jobs(ctx, jobs):
+    """run the jobs on the real implementation, in parallel worker processes; a chunk whose worker dies is
+    re-run job by job so that the one input that kills the process is identified"""
     if not jobs:
         return []
+    from concurrent.futures import ThreadPoolExecutor
     n = max(1, (len(jobs) + fw.NCPU * 2 - 1) // (fw.NCPU * 2))
     chunks = [jobs[i:i + n] for i in range(0, len(jobs), n)]
+
+    def one(chunk):
+        try:
+            return fw.run_worker(ctx, 'expr', chunk)
+        except RuntimeError:
+            out = []
+            for j in chunk:
+                try:
+                    out += fw.run_worker(ctx, 'expr', [j], timeout=120)
+                except RuntimeError:
+                    out.append(json.loads(json.dumps(CRASH)))
+            return out
+
     out = []
-    for r in fw.run_workers_parallel(ctx, 'expr', chunks):
-        out += r
+    with ThreadPoolExecutor(max_workers=fw.NCPU) as ex:
+        for r in ex.map(one, chunks):
+            out += r
     return out
 
 
@@ -756,6 +795,10 @@ def run_expressions(ctx, rp, n):
         for c in p['cases']:
             obs = observed_of(c, r)
             go = c['gen_outcome']
+            if 'error' in r and r['error']['class'] == 'WorkerCrash':
+                ctx.violation({'kind': 'assembler-kills-the-process'}, f'assembling kills the process: {p["etxt"]}',
+                              {'job': p['job']})
+                continue
             if 'error' in r and r['error']['class'] == 'Timeout':
                 ctx.violation({'kind': 'assembler-hangs'}, f'assembling did not finish in 20 s: {p["etxt"]}',
                               {'job': p['job']})
@@ -765,13 +808,8 @@ def run_expressions(ctx, rp, n):
                 # parser reaches the syntax error
                 ctx.hist('skipped', 'syntax error preceded on its line by a parse-time folding error')
                 continue
-            if obs[0] == 'catchall' and obs[1] in ('ZeroDivisionError', 'ValueError'):
-                ctx.hist('known_other_property', 'F7 parser folding leaks a raw exception (C14)')
-            if obs[0] == 'catchall' and obs[1] == 'error' and c['is_flip'] and any(
-                    c2['gen_outcome'][0] == 'val' and not (0 <= c2['gen_outcome'][1] < (1 << c['w']))
-                    for c2 in p['cases']):
-                ctx.hist('known_other_property', 'F8 flip word outside [0,2^w): struct.error (C14) - skipped')
-                continue
+            if go[0] == 'val' and not (0 <= go[1] < (1 << c['w'])):
+                ctx.hist('value_outside_word_range', 'refused' if obs[0] == 'lib' else str(obs[0]))
             terms.append(ecase_term(c, obs))
             meta.append((p, c, obs))
             nontrivial = len(p['ops']) >= 2 and len(p['ids']) >= 1
@@ -794,14 +832,22 @@ def run_expressions(ctx, rp, n):
         for i in p['ids']:
             ctx.hist('identifier_class', 'const' if i[0] == 'c' or i == 'w' else 'param' if i[0] == 'p' else
                      'iterator' if i == 'i' else 'dollar' if i == '$' else 'label')
-    oks = fw.coq_eval_shards(ctx, 'c12_expr', HEADER, terms, 'check_ecase', shard=250)
+    oks = fw.coq_eval_shards(ctx, 'c12_expr', HEADER, terms, 'check_ecase', shard=250, timeout=300)
     shown = 0
+    nbad = 0
+    if any(ok is None for ok in oks):
+        ctx.broken_tie('coq evaluation of the expression cases did not finish',
+                       f'{sum(ok is None for ok in oks)} of {len(oks)} cases were not evaluated (timeout or error)')
     for (p, c, obs), term, ok in zip(meta, terms, oks):
         if ok and shown < 3 and len(p['ops']) >= 3:
             shown += 1
             ctx.sample({'campaign': 'expression', 'source': p['job']['src'], 'w': c['w'], 'observed': list(obs)})
         if ok is False:
-            triage_ecase(ctx, p, c, obs, term)
+            nbad += 1
+            if nbad <= 12:
+                triage_ecase(ctx, p, c, obs, term)
+    if nbad:
+        ctx.coverage['disagreeing_expression_cases'] = nbad
     return len(terms)
 
 
@@ -858,8 +904,12 @@ def run_literals(ctx, n):
             body = ''.join(t for t, _ in its)
             txt = '"' + body + '"'
             term = (1, [ord(ch) for ch in body], [c for _, c in its], sum(b << (8 * i) for i, b in enumerate(bs)))
-        jobs.append({'mode': 'asm', 'w': w, 'src': f';{txt}\n', 'words': [1]})
-        metas.append((w, txt, term, kind))
+        shift = 0
+        if term[3] >= (1 << w) and rng.random() < 0.85:
+            shift = rng.randrange(0, term[3].bit_length())
+        prog = f';{txt}\n' if shift == 0 else f';({txt} >> {shift}) & {hex((1 << w) - 1)}\n'
+        jobs.append({'mode': 'asm', 'w': w, 'src': prog, 'words': [1]})
+        metas.append((w, txt, term, kind, shift))
     # the string-boundary probe: two string literals on one line
     probes = []
     for _ in range(ctx.n(4, 12)):
@@ -871,28 +921,36 @@ def run_literals(ctx, n):
         vb = sum(ord(ch) << (8 * i) for i, ch in enumerate(b))
         want = va + vb if '+' in sep else va | vb
         jobs.append({'mode': 'asm', 'w': 64, 'src': f';{txt}\n', 'words': [1]})
-        metas.append((64, txt, (2, [ord(ch) for ch in txt[1:]], [f'Plain {ord(ch)}' for ch in a], want), 'two-strings'))
+        metas.append((64, txt, (2, [ord(ch) for ch in txt[1:]], [f'Plain {ord(ch)}' for ch in a], want), 'two-strings', 0))
         probes.append(txt)
     res = run_jobs(ctx, jobs)
     terms = []
-    for (w, txt, (k, codes, items, intended), kind), r in zip(metas, res):
+    for (w, txt, (k, codes, items, intended), kind, shift), r in zip(metas, res):
         obs = obs_of_error(r['error']) if 'error' in r else ('word', int(r['words'][0]))
-        terms.append(f'mk_lcase {k}%nat {w} {fw.nlist(codes)} [{"; ".join(items)}] {intended} ({cobs(obs)})')
+        terms.append(f'mk_lcase {k}%nat {w} {shift} {fw.nlist(codes)} [{"; ".join(items)}] {intended} ({cobs(obs)})')
         ctx.count(('lit', txt, w), nontrivial=len(txt) > 2)
         ctx.hist('literal_cases', kind)
-    oks = fw.coq_eval_shards(ctx, 'c12_lit', HEADER, terms, 'check_lcase', shard=300)
-    for (w, txt, (k, codes, items, intended), kind), r, term, ok in zip(metas, res, terms, oks):
+    oks = fw.coq_eval_shards(ctx, 'c12_lit', HEADER, terms, 'check_lcase', shard=300, timeout=300)
+    if any(ok is None for ok in oks):
+        ctx.broken_tie('coq evaluation of the literal cases did not finish',
+                       f'{sum(ok is None for ok in oks)} of {len(oks)} cases were not evaluated')
+    nbad = 0
+    for (w, txt, (k, codes, items, intended), kind, shift), r, term, ok in zip(metas, res, terms, oks):
         if ok is not False:
+            continue
+        nbad += 1
+        if nbad > 12:
             continue
         rc, diag = fw.coq_eval_term(ctx, f'c12_ldiag_{abs(hash(term)) % 10**9}', HEADER, f'diag_lcase ({term})')
         obs = obs_of_error(r['error']) if 'error' in r else ('word', int(r['words'][0]))
         m = re.search(r'=\s*\((.*)\)\s*:', diag, re.S)
         body = m.group(1) if m else diag
         spec_ok = body.rstrip().endswith('true')
-        what = (f'literal `{txt}` (w={w}): observed {obs}, the language gives {intended % (1 << w)}; '
+        what = (f'literal `{txt}` (w={w}, observed through >> {shift}): observed {obs}, the language gives the value '
+                f'{intended}; '
                 f'(well-formed, model prediction, specification holds) = {body[-300:]}')
-        replay = {'mode': 'asm', 'job': {'mode': 'asm', 'w': w, 'src': f';{txt}\n', 'words': [1]}, 'literal': txt,
-                  'required_word': intended % (1 << w), 'observed': list(obs), 'coq_case': term, 'coq_kind': 'lcase',
+        replay = {'mode': 'asm', 'job': jobs[metas.index((w, txt, (k, codes, items, intended), kind, shift))], 'literal': txt,
+                  'required_value': intended, 'shift': shift, 'observed': list(obs), 'coq_case': term, 'coq_kind': 'lcase',
                   'how': './check C12 --replay <this file>'}
         if spec_ok:
             ctx.broken_tie('correspondence of the literal decoders (specification still satisfied)', what)
@@ -932,7 +990,7 @@ def run(ctx):
     rp = RefParser(spec_precedence())
     n1 = run_precedence(ctx, rp)
     # a broken tie is followed by the campaign at the thorough size, looking for a failing input
-    n2 = run_expressions(ctx, rp, ctx.n(2600, 40000) if not broken_static else max(ctx.n(2600, 40000), 12000))
+    n2 = run_expressions(ctx, rp, ctx.n(2600, 40000) if not broken_static else max(ctx.n(2600, 40000), 6000))
     n3 = run_literals(ctx, ctx.n(500, 6000))
     ctx.coverage['campaign_cases'] = {'precedence': n1, 'expressions': n2, 'literals': n3}
     ctx.coverage['rule'] = (
@@ -946,13 +1004,14 @@ def run(ctx):
         'iterator value); non-trivial = at least two operators and one identifier')
     ctx.assumptions += [
         'CPython integer arithmetic is tied to the Z operations only by this campaign (Model/Expr.v py_* definitions)',
-        'resource limits are not modelled: operands are generated so that no intermediate exceeds 4096 bits '
-        '(MemoryError / OverflowError of huge shifts and powers, and the 4300-digit int->str limit inside error '
-        'messages, belong to C14)',
+        'resource limits are not modelled: operands are generated so that no intermediate exceeds 4096 bits. '
+        'Beyond that the implementation reports MemoryError / OverflowError of huge shifts and powers as expression '
+        'errors, and the construction of the error text itself fails for integers above 4300 decimal digits '
+        '(`;((1<<20000)/0)&1` reaches the catch-all: a C14 finding, reported to the coordinator)',
         'sly (LALR table construction, the regular-expression engine) is exercised, not modelled; the reference '
         'parser and lex_string_body are tied to it by the exhaustive pair campaign and the literal campaign',
-        'parse-time folding errors (finding F7) and out-of-range flip words (finding F8) are C14 findings: compared '
-        'with the model (they agree) and counted under known_other_property, not reported by C12',
+        'a flip/jump value outside [0, 2^w) is refused by the assembler (FlipJumpAssemblerException); wide and negative '
+        'values are therefore observed through  (E >> k) & mask  windows, which are themselves part of the expression',
     ]
 
 
@@ -986,8 +1045,8 @@ def replay(ctx, path):
     rc, out = fw.coq_eval_term(ctx, 'c12_replay', HEADER,
                                f'({fn} ({term_now}), {"diag_lcase" if fn == "check_lcase" else "diag_ecase"} ({term_now}))')
     print('required (model prediction / specification) :', out[-900:])
-    if 'required_word' in rp_:
-        print('required word:', rp_['required_word'])
+    if 'required_value' in rp_:
+        print('required value of the literal:', rp_['required_value'], ' observed through >>', rp_.get('shift'))
     still = '= (false' in out
     print('VIOLATION still present' if still else 'agrees with the specification now')
     return 1 if still else 0
